@@ -109,6 +109,8 @@ type c14Case struct {
 	Renders  []string      `json:"render_sequence"`
 }
 
+var c14OwnSeq int
+
 func c14Run(c *Ctx, i int, r *gen.R) {
 	spec := r.Table(gen.TableOpts{MaxCols: 4, MaxRows: 5, ZeroHeaderOK: true, MinCols: 0, Noise: gen.NoiseSkipable | gen.NoiseAlign | gen.NoiseCallbacks,
 		Item: func(r *gen.R) gen.ItemSpec {
@@ -266,6 +268,22 @@ func c14Run(c *Ctx, i int, r *gen.R) {
 			rd{"auto.Render " + name + ".compact (trailing section)", "text:" + name, func() (string, error) { return auto.Render(t, name+".compact") }},
 			rd{"auto.Render TextTable." + name + ".x.y", "text:" + name, func() (string, error) { return auto.Render(t, "TextTable."+name+".x.y") }})
 	}
+	// wrappers that were styled BY NAME once, at set-up: what a name stood for then is what they draw, whatever the
+	// application registers under that name later on (the steps below re-register it now and then)
+	c14OwnSeq++
+	ownName := fmt.Sprintf("c14-own-%d-%d-%d-%d", c.Shard, i, c.Seed, c14OwnSeq) // new to the process every time the case runs
+	ownDecos := [2]decoration.Decoration{}
+	ownDescs := [2]string{}
+	ownDecos[0], ownDescs[0] = randomDecoration(r)
+	ownDecos[1], ownDescs[1] = randomDecoration(r)
+	ownNext := 1
+	decoration.RegisterDecorationName(ownName, ownDecos[0])
+	byName := texttable.Wrap(t)
+	byName.SetDecorationNamed(ownName)
+	rds = append(rds, rd{"long-lived text wrapper styled once with SetDecorationNamed(" + ownName + ")", "text:styled-by-name-at-set-up", byName.Render})
+	if autoBy, ok := auto.Wrap(t, ownName).(*texttable.TextTable); ok {
+		rds = append(rds, rd{"long-lived auto.Wrap(t, " + ownName + ")", "text:auto-styled-by-name-at-set-up", autoBy.Render})
+	}
 	// every (owner, key) over a fixed key set is read before the first render - whether set or not - and must read the same afterwards
 	type probe struct {
 		owner string
@@ -380,6 +398,13 @@ func c14Run(c *Ctx, i int, r *gen.R) {
 			if r.Chance(1, 3) && !checkOwned(fmt.Sprintf("after step %d", k+1)) {
 				return
 			}
+			continue
+		}
+		if r.Chance(1, 10) {
+			cs.Renders = append(cs.Renders, fmt.Sprintf("the application registers %s under the name %s (again)", ownDescs[ownNext], ownName))
+			decoration.RegisterDecorationName(ownName, ownDecos[ownNext])
+			ownNext = 1 - ownNext
+			c.Rec.Count("names_registered_again_between_renders_of_wrappers_styled_by_that_name", 1)
 			continue
 		}
 		if r.Chance(1, 12) {
